@@ -22,7 +22,7 @@ func init() {
 				"(N4) owner filter in the lookup: a record's data is used only under owner == want and type == asked type; want starts as the queried name and is replaced only by the target of a CNAME whose owner is the current want; " +
 				"(N5) the rcode table maps 1..5 to the documented errors and they are wrapped with %w; any other non-zero code is an error too (C16.NOFAIL); " +
 				"(N6) every loop reachable from Resolve has a termination variant; " +
-				"(N7) service-mode records are sorted by Priority after the last append and before their targets are resolved; (N8) the A and the AAAA lookup of one stage use the same name value. " +
+				"(N7) service-mode records are sorted by Priority after the last append and before their targets are resolved; (N8) the A and the AAAA lookup of one stage use the same name value; (N9) the addresses of a record's target are looked up for every service-mode record that names one, under no further condition. " +
 				"Not decided: behaviour against generated zones (needs execution).",
 		},
 		Rules: c14Rules,
@@ -140,60 +140,7 @@ func c14Rules(p *core.Prog, r *core.Run) {
 	r.Floor("C14.N1", 8)
 
 	// --- N2
-	portF := func(e *core.Expr) bool { return e.Op == "field" && e.Name == "Port" && e.Args[0].Op == "new" }
-	for _, s := range callSites(p, []*ssa.Function{rs}, `fmt\.Sprintf`) {
-		format := s.X.Args[0].Name
-		fs := p.Facts(s.Block())
-		not80 := false
-		not443 := false
-		notHTTPS := false
-		for _, f := range fs {
-			if f.Op == "!=" && portF(f.L) && f.R.Name == "80" {
-				not80 = true
-			}
-			if f.Op == "!=" && portF(f.L) && f.R.Name == "443" {
-				not443 = true
-			}
-			if f.Op == "!=" && f.R.Name == `"https"` {
-				notHTTPS = true
-			}
-		}
-		args := variadicArgs(p, s.Instr.Common().Args[1])
-		switch format {
-		case `"_%d._%s.%s"`:
-			ok := not80 && not443 && len(args) == 3 && portF(args[0])
-			r.Check("C14.N2", "query-name:port-form", ok, p.InstrPos(s.Instr), "_<port>._<scheme>.<name> is used exactly when the port is neither 80 nor 443, with the port first")
-		case `"_%s.%s"`:
-			// reached on the else side of the port test
-			ok := notHTTPS && len(args) == 2 && !(not80 && not443)
-			r.Check("C14.N2", "query-name:scheme-form", ok, p.InstrPos(s.Instr), "_<scheme>.<name> is used for ports 80/443 exactly when the scheme is not https")
-		default:
-			if strings.Contains(format, "_%") {
-				r.Check("C14.N2", "query-name:other", false, p.InstrPos(s.Instr), "unexpected query-name format %s", format)
-			}
-		}
-	}
-	// http folds to https: some φ input "https" is selected under ToLower(scheme) == "http"
-	folded := false
-	for _, b := range rs.Blocks {
-		for _, in := range b.Instrs {
-			ph, ok := in.(*ssa.Phi)
-			if !ok {
-				continue
-			}
-			for i, e := range ph.Edges {
-				if c, ok := e.(*ssa.Const); ok && c.Value != nil && c.Value.Kind() == constant.String && constant.StringVal(c.Value) == "https" {
-					for _, f := range p.EdgeFacts(b.Preds[i], b) {
-						if f.Op == "==" && f.R.Name == `"http"` && f.L.Op == "call" && f.L.Name == "strings.ToLower" {
-							folded = true
-						}
-					}
-				}
-			}
-		}
-	}
-	r.Check("C14.N2", "scheme:http-folds-to-https", folded, p.Pos(rs.Pos()), "scheme http (case-insensitively) is treated as https")
-	r.Floor("C14.N2", 3)
+	c14QueryName(p, r, rs, "C14.N2")
 
 	// --- N3
 	var httpsLookup site
@@ -343,6 +290,46 @@ func c14Rules(p *core.Prog, r *core.Run) {
 	} else {
 		r.Check("C14.N7", "sort:by-priority", false, p.Pos(rs.Pos()), "expected one sort of the HTTPS records, found %d", len(sorts))
 	}
+
+	// --- N9: every service-mode record that names a target has that target's
+	// addresses looked up: inside the loop over the records the call is guarded by
+	// nothing but "service mode" and "names a target"
+	nRT := 0
+	for _, t := range allCalls(p, []*ssa.Function{rs}) {
+		if t.X.Fn != rt {
+			continue
+		}
+		nRT++
+		hdr := innermostLoop(rs, t.Instr.Block())
+		if hdr == nil {
+			r.Check("C14.N9", "targets:all-resolved", false, p.InstrPos(t.Instr), "target resolution is not inside a loop over the records")
+			continue
+		}
+		outer := map[string]bool{}
+		for _, f := range p.Facts(hdr) {
+			outer[f.String()] = true
+		}
+		var extra []string
+		for _, f := range p.Facts(t.Instr.Block()) {
+			if outer[f.String()] {
+				continue
+			}
+			isF := func(e *core.Expr, name string) bool { return e != nil && e.Op == "field" && e.Name == name }
+			switch {
+			case f.Op == "!=" && isF(f.L, "Priority") && f.R.Name == "0":
+			case f.Op == ">" && isF(f.L, "Priority") && f.R.Name == "0":
+			case f.Op == ">" && f.L.Op == "call" && f.L.Name == "len" && isF(f.L.Args[0], "Target") && f.R.Name == "0":
+			case f.Op == "!=" && f.L.Op == "call" && f.L.Name == "len" && isF(f.L.Args[0], "Target") && f.R.Name == "0":
+			case f.Op == "!=" && isF(f.L, "Target") && f.R.Name == `""`:
+			case f.Op == "true" && strings.Contains(f.L.String(), "next"): // range bookkeeping
+			case f.Op == "<" && f.R != nil && f.R.Op == "call" && f.R.Name == "len": // range index < len
+			default:
+				extra = append(extra, f.String())
+			}
+		}
+		r.Check("C14.N9", "targets:all-resolved", len(extra) == 0, p.InstrPos(t.Instr), "inside the loop over the records, the target's addresses are looked up for every service-mode record that names a target; further conditions: %v", extra)
+	}
+	r.Check("C14.N9", "targets:resolve-site", nRT == 1, p.Pos(rs.Pos()), "one target-resolution site in Resolve (found %d)", nRT)
 
 	// --- N8
 	for _, fn := range []*ssa.Function{rs, rt} {
@@ -559,4 +546,64 @@ func c14Rcode(p *core.Prog, r *core.Run, noc *ssa.Function) {
 		}
 	}
 	r.Check("C14.N5", "rcode:wrapped", wrapped, p.Pos(noc.Pos()), "the mapped error is wrapped with %%w, keyed by the response's (extended) response code")
+}
+
+// c14QueryName: the RFC 9460 query-name rules (shared with C19.UPGRADE: the
+// upgrade of http URLs depends on asking for the https records of the origin).
+func c14QueryName(p *core.Prog, r *core.Run, rs *ssa.Function, rule string) {
+	portF := func(e *core.Expr) bool { return e.Op == "field" && e.Name == "Port" && e.Args[0].Op == "new" }
+	for _, s := range callSites(p, []*ssa.Function{rs}, `fmt\.Sprintf`) {
+		format := s.X.Args[0].Name
+		fs := p.Facts(s.Block())
+		not80 := false
+		not443 := false
+		notHTTPS := false
+		for _, f := range fs {
+			if f.Op == "!=" && portF(f.L) && f.R.Name == "80" {
+				not80 = true
+			}
+			if f.Op == "!=" && portF(f.L) && f.R.Name == "443" {
+				not443 = true
+			}
+			if f.Op == "!=" && f.R.Name == `"https"` {
+				notHTTPS = true
+			}
+		}
+		args := variadicArgs(p, s.Instr.Common().Args[1])
+		switch format {
+		case `"_%d._%s.%s"`:
+			ok := not80 && not443 && len(args) == 3 && portF(args[0])
+			r.Check(rule, "query-name:port-form", ok, p.InstrPos(s.Instr), "_<port>._<scheme>.<name> is used exactly when the port is neither 80 nor 443, with the port first")
+		case `"_%s.%s"`:
+			// reached on the else side of the port test
+			ok := notHTTPS && len(args) == 2 && !(not80 && not443)
+			r.Check(rule, "query-name:scheme-form", ok, p.InstrPos(s.Instr), "_<scheme>.<name> is used for ports 80/443 exactly when the scheme is not https")
+		default:
+			if strings.Contains(format, "_%") {
+				r.Check(rule, "query-name:other", false, p.InstrPos(s.Instr), "unexpected query-name format %s", format)
+			}
+		}
+	}
+	// http folds to https: some φ input "https" is selected under ToLower(scheme) == "http"
+	folded := false
+	for _, b := range rs.Blocks {
+		for _, in := range b.Instrs {
+			ph, ok := in.(*ssa.Phi)
+			if !ok {
+				continue
+			}
+			for i, e := range ph.Edges {
+				if c, ok := e.(*ssa.Const); ok && c.Value != nil && c.Value.Kind() == constant.String && constant.StringVal(c.Value) == "https" {
+					for _, f := range p.EdgeFacts(b.Preds[i], b) {
+						if f.Op == "==" && f.R.Name == `"http"` && f.L.Op == "call" && f.L.Name == "strings.ToLower" {
+							folded = true
+						}
+					}
+				}
+			}
+		}
+	}
+	r.Check(rule, "scheme:http-folds-to-https", folded, p.Pos(rs.Pos()), "scheme http (case-insensitively) is treated as https")
+	r.Floor(rule, 3)
+
 }
